@@ -477,6 +477,111 @@ func c14DocNilElems(c *core.Ctx) {
 		}
 		results[key] = &result{pos, bad == "", msg}
 	}
+	// elements used in place: X[i].F, X[i].M() on a document slice
+	for _, fd := range funcs {
+		info := fd.Pkg.TypesInfo
+		var ff *core.FuncFlow
+		k := 0
+		ast.Inspect(fd.Decl.Body, func(m ast.Node) bool {
+			if _, isLit := m.(*ast.FuncLit); isLit {
+				return false
+			}
+			se, ok := m.(*ast.SelectorExpr)
+			if !ok {
+				return true
+			}
+			ix, ok := ast.Unparen(se.X).(*ast.IndexExpr)
+			if !ok {
+				return true
+			}
+			from := isDocSlice(fd, ldOf(fd), ix.X, 0)
+			if from == "" {
+				return true
+			}
+			sel := info.Selections[se]
+			if sel == nil {
+				return true
+			}
+			unsafe := ""
+			switch sel.Kind() {
+			case types.FieldVal:
+				unsafe = "its field " + se.Sel.Name + " is accessed"
+			case types.MethodVal:
+				if mfn, ok := sel.Obj().(*types.Func); ok {
+					if mfd := p.DeclOf(mfn); mfd != nil {
+						if why := nilSafeReceiverMemo(p, mfd); why != "" {
+							unsafe = "method " + mfn.Name() + " dereferences its receiver"
+						}
+					}
+				}
+			}
+			if unsafe == "" {
+				return true
+			}
+			// an assignment to the element itself (X[i] = …) is not a use of it
+			k++
+			if ff == nil {
+				ff = core.NewFuncFlow(fd)
+			}
+			path := types.ExprString(ix)
+			same := func(e ast.Expr) bool { return types.ExprString(ast.Unparen(e)) == path }
+			nilCmp := func(e ast.Expr, op token.Token) bool {
+				be, ok := ast.Unparen(e).(*ast.BinaryExpr)
+				return ok && be.Op == op && ((same(be.X) && core.IsNil(info, be.Y)) || (same(be.Y) && core.IsNil(info, be.X)))
+			}
+			freshPtr := func(e ast.Expr) bool {
+				e = ast.Unparen(e)
+				if u, ok := e.(*ast.UnaryExpr); ok && u.Op == token.AND {
+					_, isLit := ast.Unparen(u.X).(*ast.CompositeLit)
+					return isLit
+				}
+				if call, ok := e.(*ast.CallExpr); ok {
+					if id, ok := call.Fun.(*ast.Ident); ok && id.Name == "new" {
+						return true
+					}
+				}
+				return false
+			}
+			okHere := false
+			node := ff.Flow.EnclosingNode(se)
+			if node != nil {
+				for leaf, val := range ff.Flow.CondsAt(node) {
+					if (nilCmp(leaf, token.NEQ) && val) || (nilCmp(leaf, token.EQL) && !val) {
+						okHere = true
+					}
+				}
+				if !okHere {
+					est := map[ast.Node]bool{}
+					ast.Inspect(fd.Decl.Body, func(q ast.Node) bool {
+						switch x := q.(type) {
+						case *ast.AssignStmt:
+							for i, l := range x.Lhs {
+								if same(l) && len(x.Lhs) == len(x.Rhs) && freshPtr(x.Rhs[i]) {
+									est[x] = true
+								}
+							}
+						case *ast.IfStmt:
+							if x.Else == nil && x.Init == nil && nilCmp(x.Cond, token.EQL) && len(x.Body.List) > 0 {
+								if la, ok := x.Body.List[len(x.Body.List)-1].(*ast.AssignStmt); ok && len(la.Lhs) == 1 && same(la.Lhs[0]) && freshPtr(la.Rhs[0]) {
+									est[x.Cond] = true
+								}
+							}
+						}
+						return true
+					})
+					if len(est) > 0 && ff.Flow.EveryPathPasses(node, func(nd ast.Node) bool { return est[nd] }) {
+						okHere = true
+					}
+				}
+				if !okHere && shortCircuitGuardExpr(info, fd.Decl.Body, se, path) {
+					okHere = true
+				}
+			}
+			key := fmt.Sprintf("%s#%s~%d", fd.Name(), path, k)
+			results[key] = &result{se.Pos(), okHere, fmt.Sprintf("`%s` (element of %s) is nil when the array holds a JSON null, and %s without a nil test: the operation panics instead of returning an error", path, from, unsafe)}
+			return true
+		})
+	}
 	var keys []string
 	for k := range results {
 		keys = append(keys, k)
@@ -490,4 +595,44 @@ func c14DocNilElems(c *core.Ctx) {
 		c.Ob("C14-R11", "UNRESOLVED:document-slices", token.NoPos, false, "no range over a slice of pointers of a document type found")
 	}
 	_ = strings.TrimSpace
+}
+
+
+// shortCircuitGuardExpr: the use stands to the right of `<path> != nil &&` (or
+// `<path> == nil ||`) in the same condition.
+func shortCircuitGuardExpr(info *types.Info, body ast.Node, use ast.Node, path string) bool {
+	found := false
+	ast.Inspect(body, func(n ast.Node) bool {
+		be, ok := n.(*ast.BinaryExpr)
+		if !ok || found {
+			return true
+		}
+		if (be.Op != token.LAND && be.Op != token.LOR) || !(be.Y.Pos() <= use.Pos() && use.End() <= be.Y.End()) {
+			return true
+		}
+		var has func(e ast.Expr) bool
+		has = func(e ast.Expr) bool {
+			e = ast.Unparen(e)
+			if b, ok := e.(*ast.BinaryExpr); ok {
+				if b.Op == be.Op {
+					return has(b.X) || has(b.Y)
+				}
+				want := token.NEQ
+				if be.Op == token.LOR {
+					want = token.EQL
+				}
+				if b.Op == want {
+					if (types.ExprString(ast.Unparen(b.X)) == path && core.IsNil(info, b.Y)) || (types.ExprString(ast.Unparen(b.Y)) == path && core.IsNil(info, b.X)) {
+						return true
+					}
+				}
+			}
+			return false
+		}
+		if has(be.X) {
+			found = true
+		}
+		return true
+	})
+	return found
 }
